@@ -66,6 +66,24 @@ def routine_signature(src: str, subs):
     return None, None
 
 
+_BR = None
+
+
+def _bundled_routines():
+    global _BR
+    if _BR is None:
+        import json
+        import os
+
+        from . import common
+
+        try:
+            _BR = set(json.load(open(os.path.join(common.REPO, "Resources/Hexagon/sub_routines.json")))["sub_routines"])
+        except Exception:
+            _BR = set()
+    return _BR
+
+
 def signature(src: str, r, subs=()):
     """Signature classifiers (structural mechanisms). Returns the mechanism name or None.
     The predicate must hold for the source AND the observed discrepancy must be the one described."""
@@ -84,6 +102,12 @@ def signature(src: str, r, subs=()):
         ast = CP.parse(src)
     except CP.ParseError:
         return None
+    from . import ctype
+
+    routines = {n for n, (ret, ps) in ctype.signatures().items() if n in _bundled_routines()} | {s_[0] for s_ in subs}
+    if CP.loop_condition_hybrids(ast, routines):
+        # the operation is sequenced once in front of the loop instead of with every test of the condition (listed finding)
+        return "loop_condition_hybrid_once"
     se, hy = CP.guard_targets(ast)
 
     def covers(tg):
